@@ -27,6 +27,7 @@ import torch
 from . import common, opbuild
 from . import c06_grid as G
 from . import c06_ops as O
+from . import c06_tr as TR
 
 PROP = "C06"
 F64 = torch.float64
@@ -35,6 +36,7 @@ torch.set_num_threads(1)
 TOL_VAL = 1e-10         # entrywise model vs implementation (oracle answers are replayed, so only summation order differs)
 TOL_DIRECT = 1e-10      # property predicate, direct methods: two orders below the smallest documented jitter (1e-8), so
                         # that a factor of A + jitter*I is never accepted as a factor of A
+TOL_VAL_ILL = 1e-6      # ... for the cells of condition number 1e8 (triangular solves / Cholesky differ by eps * cond between LAPACK and model)
 TOL_KRYLOV = 2e-4       # property predicate when a Lanczos-based function ran (documented tridiagonal jitter 1e-6 * min diag)
 
 DEFAULT_CLASSES = {"Dense", "UserMinimal", "Toeplitz", "Sum", "PsdSum", "Mul", "Matmul", "Kernel", "LowRankRoot", "Zero",
@@ -42,9 +44,20 @@ DEFAULT_CLASSES = {"Dense", "UserMinimal", "Toeplitz", "Sum", "PsdSum", "Mul", "
                    "KronTriangular"}
 
 
+SRC_FLAGS = {}
+
+
 def regenerate():
-    os.makedirs(os.path.join(common.COQ, PROP, "gen"), exist_ok=True)
-    return {}
+    """coq/C06/gen/SrcFlags.v from the source tree under test (common.REPO); rewritten only when it changes"""
+    gen = os.path.join(common.COQ, PROP, "gen")
+    os.makedirs(gen, exist_ok=True)
+    code, fl = TR.translate(common.REPO)
+    p = os.path.join(gen, "SrcFlags.v")
+    if not os.path.exists(p) or open(p).read() != code:
+        open(p, "w").write(code)
+    SRC_FLAGS.clear()
+    SRC_FLAGS.update(fl)
+    return fl
 
 
 # ------------------------------------------------------------------------------------------------ member extraction
@@ -162,6 +175,9 @@ def query_lit(case):
         return "QEigvalsh"
     if op == "diag":
         return "(QDiag %s)" % m
+    if op == "logdet":
+        # only as an earlier step on a KroneckerProductLinearOperator: _logdet = diagonalization() (cached)
+        return "(QDiag MNone)"
     if op in ("svd", "t_svd"):
         return "QSvd"
     raise ValueError(op)
@@ -244,15 +260,20 @@ def settings_lit(case):
     d = lib_defaults()
     dbl = d["d"] if case.get("cj") is None else float(case["cj"])       # settings.cholesky_jitter(double_value=cj)
     c16 = "(MkSettings %s %s %s %s false)" % (fl(d["f"]), fl(dbl), fl(d["h"]), common.zlit(d["mt"]))
-    return "(MkSt %s %s %s %s %s %s)" % (common.zlit(case.get("mcs", 800)), common.zlit(case.get("mrs", 100)),
-                                          common.coq_bool(case.get("fast", True)), c16,
-                                          common.coq_bool(torch.get_default_dtype() == torch.float32), fl(1e-7))
+    if "kron_rootinv_noargs" not in SRC_FLAGS:
+        regenerate()
+    # cat_rows cases are modelled as "the cached root is the Cholesky factor of the dense matrix C", whatever the settings
+    mcs_model = 800 if case.get("kind") == "catrows" else case.get("mcs", 800)
+    return "(MkSt %s %s %s %s %s %s %s)" % (common.zlit(mcs_model), common.zlit(case.get("mrs", 100)),
+                                             common.coq_bool(case.get("fast", True)), c16,
+                                             common.coq_bool(torch.get_default_dtype() == torch.float32), fl(1e-7),
+                                             common.coq_bool(SRC_FLAGS["kron_rootinv_noargs"]))
 
 
 def cache_lit(case, res):
     inj = set(case.get("inject", []))
     # an earlier diagonalization() on the same object leaves a "diagonalization" entry in its memoize cache
-    if any(p["op"] == "diag" for p in case.get("pre", [])):
+    if any(p["op"] in ("diag", "logdet") for p in case.get("pre", [])):
         inj.add("diagonalization")
     return "(MkCache %s %s %s)" % tuple(common.coq_bool(x in inj) for x in ("symeig", "diagonalization", "lanczos"))
 
@@ -301,7 +322,7 @@ def case_lits(case, res, values, pred, ptol, member_cap=6):
                 vecs.append(vec_lit(xm))
         lits.append("(MkCase %s %s [%s] %s %s %s %s %s %s %s %d %s %d [%s] [%s])" % (
             member_lit(eff, bi), q, "; ".join(query_lit(p) for p in case.get("pre", [])), ch, st, tabs, common.coq_bool(values_i), common.coq_bool(pred_i),
-            fl(TOL_VAL), fl(ptol), kind, evs, evmode, "; ".join(mats), "; ".join(vecs)))
+            fl(TOL_VAL_ILL if case.get("cell") in G.ILL_CELLS else TOL_VAL), fl(ptol), kind, evs, evmode, "; ".join(mats), "; ".join(vecs)))
     return lits, idxs
 
 
@@ -344,6 +365,31 @@ def is_psd_cell(cell):
     return not cell.startswith("Tri")
 
 
+def n_clusters(lam, rel=1e-3):
+    """number of eigenvalue clusters separated by gaps > rel * max|lambda| (lam sorted ascending)"""
+    lam = [float(x) for x in lam]
+    scale = max(1e-300, max(abs(x) for x in lam))
+    return 1 + sum(1 for a, b in zip(lam, lam[1:]) if b - a > rel * scale)
+
+
+def lanczos_truncation(res):
+    """Every Lanczos call the library made (recorded with its matrix and its answer): the members of a batch run in lock-step,
+    so the number of iterations must reach min(rank bound, n, number of well-separated eigenvalue clusters of the member
+    with the MOST clusters) — a generic start vector has a component in every eigenspace.  Stopping earlier is not the
+    documented 'orthogonal compression onto the Krylov space', it is a truncated Krylov space.  None | description"""
+    calls = [(A, mi, (R if R.numel() else Ri).shape[-1]) for A, mi, R, Ri in res["lzr"]]
+    calls += [(A, mi, w.shape[-1]) for A, mi, w, Q in res["lzd"]]
+    for A, mi, k in calls:
+        n = A.shape[-1]
+        lam = torch.linalg.eigvalsh(A.reshape(-1, n, n))
+        d = max(n_clusters(l) for l in lam)
+        want = min(int(mi), n, d)
+        if k < want:
+            return ("Lanczos stopped after %d iteration(s) on a %d x %d operator (rank bound %d) one batch member of which has %d "
+                    "well-separated eigenvalues: its Krylov space has dimension %d" % (k, n, n, int(mi), d, want))
+    return None
+
+
 def direct_check(case, res):
     """-> (None | description of the C06 violation on the implementation, applicable_predicate: bool, tolerance)"""
     cell = case.get("cell", "")
@@ -361,6 +407,10 @@ def direct_check(case, res):
     n = opbuild.dense(res.get("eff_expr", case["expr"]), F64).shape[-1]
     if case.get("method") == "pivoted_cholesky":
         full = full and int(case.get("mrs", 100)) >= n
+    if res["kind"] == "ok" and is_psd_cell(cell):
+        trunc = lanczos_truncation(res)
+        if trunc:
+            return trunc, False, tol
     if krylov and not full:
         # rank-deficient by design (rank bound below n, or Lanczos breakdown on repeated eigenvalues)
         return None, False, tol
@@ -384,7 +434,7 @@ def direct_check(case, res):
 
 def failure_key(case, res, what):
     fail = "raise:" + str(res["exc"]) if res["kind"] == "raise" else (
-        "shape" if "shape" in what else ("orthonormality" if ("^T U" in what or "^T V" in what or "^T Q" in what) else "value"))
+        "krylov-truncation" if "Lanczos stopped" in what else "shape" if "shape" in what else ("orthonormality" if ("^T U" in what or "^T V" in what or "^T Q" in what) else "value"))
     op = case["op"][2:] if case["op"].startswith("t_") else case["op"]
     meth = effective_method(case, res)
     return {"cell": case.get("cell"), "kind": case.get("kind", "plain"), "op": op, "method": meth, "fail": fail,
@@ -404,7 +454,13 @@ def slim(case, res=None):
 
 
 def run(ctx):
-    regenerate()
+    try:
+        regenerate()
+    except TR.Untranslatable as ex:
+        # the anchored override no longer has a shape Model.v transcribes: fail closed
+        ctx.violation({"kind": "untranslatable-source", "error": str(ex)}, no_input=True)
+        ctx.coverage.update({"trusted_base": common.COQ_TRUSTED, "evaluations": 0, "distinct_nontrivial": 0, "rule": "-", "samples": []})
+        return
     rng = random.Random(ctx.seed)
     grid = G.enumerate_grid(ctx.quick)
     t0 = time.time()
@@ -497,7 +553,8 @@ def run(ctx):
                       key=None, no_input=True)
     ctx.coverage.update({
         "trusted_base": common.COQ_TRUSTED + [
-            "hand transcription coq/C06/Model.v of the factorisation queries and class overrides (no translator)",
+            "hand transcription coq/C06/Model.v of the factorisation queries and class overrides; one source flag is translated from "
+            "the AST (harness/c06_tr.py -> coq/C06/gen/SrcFlags.v: does the Kronecker root_inv override forward its arguments), fail-closed",
             "oracles: torch.linalg.eigh, Diagonalization.apply / RootDecomposition.apply (Lanczos autograd functions), "
             "pivoted_cholesky, torch.pinverse are replayed from the implementation's own calls (contracts assumed in the theorems, "
             "checked by the predicates on every case); dense Cholesky = C16 model (Cholesky-Banachiewicz kernel) vs LAPACK potrf",
@@ -511,7 +568,7 @@ def run(ctx):
         "rule": "one evaluation = one batch member of one (cell, batch, query, method, upper, settings, cache state) grid item run on the "
                 "implementation and in Coq; distinct = distinct (cell, batch shape, query, effective method, upper, set of solver "
                 "primitives with sizes, outcome kind); the grid is enumerated deterministically, the seed only draws matrix entries",
-        "grid_items": len(grid), "outcomes": counters, "routes": by_route, "cells": by_cell, "kinds": by_kind,
+        "source_flags": dict(SRC_FLAGS), "grid_items": len(grid), "outcomes": counters, "routes": by_route, "cells": by_cell, "kinds": by_kind,
         "direct_property_failures": n_direct_fail, "direct_failures_by_key": by_fail,
         "mismatches": len(mism), "model_only_disagreements": n_model_only,
         "run_seconds": round(t_run, 1),
